@@ -1,1 +1,214 @@
-fn main(){}
+//! fake-engine: a scripted child process standing in for a database engine behind
+//! `sqllogictest --engine external` / `ExternalDriver`.
+//!
+//!   fake-engine raw <script.json> <log>          (C20: scripted reply bytes, chunking, truncation)
+//!   fake-engine engine <scenario.json> <log> <db> (C16-C19: SQL-keyed replies, latencies, faults, signals)
+//!
+//! Every observable goes to <log> as one appended line of JSON (O_APPEND, one write each):
+//!   {"t": monotonic ns, "pid": .., "db": .., "ev": "START"|"SQL"|"EOF"|"EXIT", "sql": ..}
+use serde_json::{json, Value};
+use std::io::{Read, Write};
+
+fn now_ns() -> u128 {
+    let mut ts = libc::timespec { tv_sec: 0, tv_nsec: 0 };
+    unsafe { libc::clock_gettime(libc::CLOCK_MONOTONIC, &mut ts) };
+    ts.tv_sec as u128 * 1_000_000_000 + ts.tv_nsec as u128
+}
+
+fn log(path: &str, v: Value) {
+    let mut f = std::fs::OpenOptions::new().create(true).append(true).open(path).unwrap();
+    let mut line = serde_json::to_string(&v).unwrap();
+    line.push('\n');
+    f.write_all(line.as_bytes()).unwrap();
+}
+
+/// read the next JSON value from stdin (requests are written back to back without delimiter)
+fn next_request(buf: &mut Vec<u8>) -> Option<(Value, Vec<u8>)> {
+    let mut stdin = std::io::stdin();
+    loop {
+        {
+            let mut it = serde_json::Deserializer::from_slice(buf).into_iter::<Value>();
+            match it.next() {
+                Some(Ok(v)) => {
+                    let n = it.byte_offset();
+                    let raw = buf[..n].to_vec();
+                    buf.drain(..n);
+                    return Some((v, raw));
+                }
+                Some(Err(e)) if !e.is_eof() => {
+                    // not JSON: hand the raw bytes over as they are
+                    let raw = std::mem::take(buf);
+                    return Some((Value::Null, raw));
+                }
+                _ => {}
+            }
+        }
+        let mut chunk = [0u8; 4096];
+        match stdin.read(&mut chunk) {
+            Ok(0) | Err(_) => return None,
+            Ok(n) => buf.extend_from_slice(&chunk[..n]),
+        }
+    }
+}
+
+fn sleep_ms(ms: u64) {
+    if ms > 0 {
+        std::thread::sleep(std::time::Duration::from_millis(ms));
+    }
+}
+
+/// the pid of the sqllogictest CLI among our ancestors (bash -c may or may not exec us directly)
+fn cli_pid() -> Option<i32> {
+    let mut pid = unsafe { libc::getppid() };
+    for _ in 0..6 {
+        let comm = std::fs::read_to_string(format!("/proc/{pid}/comm")).unwrap_or_default();
+        if comm.trim() == "sqllogictest" {
+            return Some(pid);
+        }
+        let stat = std::fs::read_to_string(format!("/proc/{pid}/stat")).ok()?;
+        let after = stat.rsplit(')').next()?.split_whitespace().nth(1)?.parse::<i32>().ok()?;
+        if after <= 1 {
+            return None;
+        }
+        pid = after;
+    }
+    None
+}
+
+fn raw_mode(script_path: &str, logp: &str) {
+    let script: Value = serde_json::from_str(&std::fs::read_to_string(script_path).unwrap()).unwrap();
+    let pid = std::process::id();
+    log(logp, json!({"t": now_ns().to_string(), "pid": pid, "ev": "START"}));
+    let mode = script["mode"].as_str().unwrap_or("lockstep");
+    let replies = script["replies"].as_array().cloned().unwrap_or_default();
+    let mut out = std::io::stdout();
+    let write_reply = |out: &mut std::io::Stdout, r: &Value| -> bool {
+        // r = {"chunks": [[bytes...], ...], "delay_ms": n, "then": "close"|"exit"|null}
+        for ch in r["chunks"].as_array().unwrap() {
+            let bytes: Vec<u8> = ch.as_array().unwrap().iter().map(|b| b.as_u64().unwrap() as u8).collect();
+            if out.write_all(&bytes).is_err() || out.flush().is_err() {
+                return false;
+            }
+            sleep_ms(r["delay_ms"].as_u64().unwrap_or(0));
+        }
+        match r["then"].as_str() {
+            Some("exit") => {
+                log(logp, json!({"t": now_ns().to_string(), "pid": pid, "ev": "EXIT"}));
+                std::process::exit(0);
+            }
+            Some("close") => {
+                // close stdout but keep running (reading stdin until EOF)
+                unsafe { libc::close(1) };
+            }
+            _ => {}
+        }
+        true
+    };
+    if mode == "eager" {
+        for r in &replies {
+            write_reply(&mut out, r);
+        }
+    }
+    let mut buf = vec![];
+    let mut k = 0;
+    while let Some((v, raw)) = next_request(&mut buf) {
+        log(logp, json!({"t": now_ns().to_string(), "pid": pid, "ev": "SQL", "req": v, "raw": raw}));
+        if mode != "eager" {
+            if let Some(r) = replies.get(k) {
+                write_reply(&mut out, r);
+            }
+        }
+        k += 1;
+    }
+    log(logp, json!({"t": now_ns().to_string(), "pid": pid, "ev": "EOF"}));
+}
+
+fn engine_mode(scen_path: &str, logp: &str, db: &str) {
+    let scen: Value = serde_json::from_str(&std::fs::read_to_string(scen_path).unwrap()).unwrap();
+    let pid = std::process::id();
+    // index of this engine process among all started so far (serial mode: the k-th connection)
+    let start_index = std::fs::read_to_string(logp).map(|s| s.lines().filter(|l| l.contains("\"START\"")).count()).unwrap_or(0);
+    log(logp, json!({"t": now_ns().to_string(), "pid": pid, "db": db, "ev": "START", "index": start_index}));
+    let rules = scen["rules"].as_array().cloned().unwrap_or_default();
+    for r in &rules {
+        let hit = r.get("start_db_prefix").and_then(|p| p.as_str()).map(|p| db.starts_with(p)).unwrap_or(false)
+            || r.get("start_index").and_then(|i| i.as_u64()).map(|i| i as usize == start_index).unwrap_or(false);
+        if hit && r.get("exit_at_start").and_then(|b| b.as_bool()).unwrap_or(false) {
+            log(logp, json!({"t": now_ns().to_string(), "pid": pid, "db": db, "ev": "EXIT"}));
+            std::process::exit(3);
+        }
+    }
+    let mut out = std::io::stdout();
+    let mut buf = vec![];
+    let mut nreq: u64 = 0;
+    while let Some((v, _raw)) = next_request(&mut buf) {
+        let sql = v.get("sql").and_then(|s| s.as_str()).unwrap_or("").to_string();
+        // global request counter across all engine processes (one line per request in the log)
+        log(logp, json!({"t": now_ns().to_string(), "pid": pid, "db": db, "ev": "SQL", "sql": sql}));
+        let global_k = std::fs::read_to_string(logp).map(|s| s.lines().filter(|l| l.contains("\"SQL\"")).count()).unwrap_or(0) as u64;
+        nreq += 1;
+        let mut reply = json!({"result": [["1"]]});
+        let mut delay = scen.get("delay_ms").and_then(|d| d.as_u64()).unwrap_or(0);
+        let mut exit_after = false;
+        let mut exit_before = false;
+        for r in &rules {
+            let m = r.get("match").and_then(|m| m.as_str());
+            let at = r.get("at_request").and_then(|k| k.as_u64());
+            let hit = m.map(|m| sql.contains(m)).unwrap_or(false) || at.map(|k| k == global_k).unwrap_or(false);
+            if !hit {
+                continue;
+            }
+            if let Some(rp) = r.get("reply") {
+                reply = rp.clone();
+            }
+            if let Some(e) = r.get("err").and_then(|e| e.as_str()) {
+                reply = json!({"err": e});
+            }
+            if let Some(d) = r.get("delay_ms").and_then(|d| d.as_u64()) {
+                delay = d;
+            }
+            if let Some(sig) = r.get("signal").and_then(|s| s.as_str()) {
+                if let Some(p) = cli_pid() {
+                    let s = if sig == "KILL" { libc::SIGKILL } else { libc::SIGINT };
+                    log(logp, json!({"t": now_ns().to_string(), "pid": pid, "db": db, "ev": "SIGNAL", "sig": sig, "to": p}));
+                    unsafe { libc::kill(p, s) };
+                    // grace: let the signal be handled before we answer
+                    sleep_ms(r.get("grace_ms").and_then(|g| g.as_u64()).unwrap_or(300));
+                }
+            }
+            if r.get("exit_before_reply").and_then(|b| b.as_bool()).unwrap_or(false) {
+                exit_before = true;
+            }
+            if r.get("exit_after_reply").and_then(|b| b.as_bool()).unwrap_or(false) {
+                exit_after = true;
+            }
+        }
+        if exit_before {
+            log(logp, json!({"t": now_ns().to_string(), "pid": pid, "db": db, "ev": "EXIT"}));
+            std::process::exit(4);
+        }
+        sleep_ms(delay);
+        let s = serde_json::to_string(&reply).unwrap();
+        if out.write_all(s.as_bytes()).is_err() || out.flush().is_err() {
+            break;
+        }
+        if exit_after {
+            log(logp, json!({"t": now_ns().to_string(), "pid": pid, "db": db, "ev": "EXIT"}));
+            std::process::exit(5);
+        }
+    }
+    let _ = nreq;
+    log(logp, json!({"t": now_ns().to_string(), "pid": pid, "db": db, "ev": "EOF"}));
+}
+
+fn main() {
+    let args: Vec<String> = std::env::args().collect();
+    match args.get(1).map(|s| s.as_str()) {
+        Some("raw") => raw_mode(&args[2], &args[3]),
+        Some("engine") => engine_mode(&args[2], &args[3], args.get(4).map(|s| s.as_str()).unwrap_or("")),
+        _ => {
+            eprintln!("usage: fake-engine raw <script> <log> | engine <scenario> <log> <db>");
+            std::process::exit(2);
+        }
+    }
+}
